@@ -486,7 +486,7 @@ Section Steps.
     apply andb_true_iff in G as [G1 _].
     inversion H; subst; clear H.
     set (e := if b then ECtx else EConn).
-    set (s0 := latch s e true).
+    set (s0 := set_wire (latch s e true) [] []).
     assert (I0 : InvA s0).
     { apply (inva_ctl_eq s); [|assumption]. unfold ctl_eq; cbn; repeat split; reflexivity. }
     set (c' := with_pc (with_res (p_calls s t) (errs_for (p_calls s t) e)) (PDecr true)).
@@ -783,7 +783,7 @@ Section Steps.
       apply (inva_ctl_eq s); [|assumption]. unfold ctl_eq; cbn; repeat split; reflexivity.
     - destruct (p_c2s s); [discriminate|]. destruct (p_conn s); [|discriminate]. inversion H; subst; clear H.
       apply (inva_ctl_eq s); [|assumption]. unfold ctl_eq; cbn; repeat split; reflexivity.
-    - destruct (p_conn s && free_push (g_r2ps g) m && (N.eqb (m_typ m) t_push || negb (N.eqb (p_st s) 0))); [|discriminate].
+    - destruct (p_conn s && free_push (g_r2ps g) m && (N.eqb (m_typ m) t_push || p_bg s)); [|discriminate].
       inversion H; subst; clear H.
       apply (inva_ctl_eq s); [|assumption]. unfold ctl_eq; cbn; repeat split; reflexivity.
     - destruct (p_b s); try discriminate.
